@@ -159,9 +159,78 @@ def boundary_cases(rng, n):
     return out
 
 
+def peek_cases(rng, n):
+    """Directed histories: two topics share the blocks of a file; the lagging one consumes a prefix and then only
+    PEEKS at its next entry (often the last entry of a sealed block), the other one is drained and both move on
+    into the next file.  A block that was only peeked must not count as consumed (seeded change c12b-2 — a mark
+    placed before the `if checkpoint` — was missed by the random histories: they hardly ever peek exactly there
+    and then consume everything else of the file)."""
+    out = []
+    for k in range(n):
+        s = rng.choice([3000, 3000, 1700, 900])
+        pb = per_block(s)
+        lines = ["CASE peek-%d mode=%s backend=%s sched=ms:1 trk=1" % (k, rng.choice(["strict", "strict", "alo:2"]), rng.choice(["fd", "mmap"]))]
+        pid = 0
+        nl = na = 0
+        for i in range(8):                       # one file: blocks alternate between the two topics
+            t = "t1" if i % 2 == 0 else "t2"
+            for _ in range(pb):
+                lines.append("A %s %d %d" % (t, pid, s)); pid += 1
+                if t == "t1":
+                    nl += 1
+                else:
+                    na += 1
+        for i in range(rng.choice([4, 6, 10])):  # both move on into the next file(s)
+            t = "t1" if i % 2 == 0 else "t2"
+            for _ in range(pb):
+                lines.append("A %s %d %d" % (t, pid, s)); pid += 1
+        consumed = rng.choice([nl - 1, nl - 1, nl - pb, max(0, nl - pb - 1), rng.randint(0, nl)])
+        lines += ["R t1 1"] * consumed
+        lines += [rng.choice(["R t1 0", "BR t1 %d 0 -" % (s + T.H), "BR t1 1 0 -"])] * rng.choice([1, 3, 5])
+        lines += ["BR t2 409600 1 -"] * 3
+        lines += ["SLEEP 40", "TRK", "LS", rng.choice(["RESTART", "RESTART", "REOPEN"])]
+        for t in ("t1", "t2"):
+            lines += ["BR %s 409600 1 -" % t] * 4 + ["R %s 1" % t, "C %s" % t]
+        lines += ["SLEEP 10", "LS", "TRK"] + probe(["t1", "t2"])
+        out.append(lines)
+    return out
+
+
+def rollover_cases(rng, n):
+    """Directed histories with as many topics as a file has blocks: a NEW topic's first block is the one that rolls
+    over to a fresh file (allocator path get_next_available_block, not the ordinary rotation); that topic then stays
+    unconsumed while another topic fills and consumes the rest of the new file and moves on (seeded change c12b-1 —
+    the new file's first block registered against the previous file — was missed: the random histories use 2-3 topics)."""
+    out = []
+    for k in range(n):
+        lines = ["CASE roll-%d mode=%s backend=%s sched=ms:1 trk=1" % (k, rng.choice(["strict", "alo:2"]), rng.choice(["fd", "mmap"]))]
+        pid = 0
+        nt = 8 + rng.choice([0, 0, 1])           # topics t1..t8 take the 8 blocks of the first file (small geometry)
+        for i in range(1, nt + 1):
+            lines.append("A t%d %d %d" % (i, pid, rng.choice([10, 300, 3000]))); pid += 1
+        lag = "t%d" % (nt + 1)                     # its first block opens the next file
+        lines.append("A %s %d %d" % (lag, pid, rng.choice([10, 300, 3000]))); pid += 1
+        run = "t1"
+        for _ in range(rng.choice([7, 8, 10, 16])):   # fills the rest of that file and rolls on
+            lines.append("A %s %d 3000" % (run, pid)); pid += 1
+        lines += ["BR %s 409600 1 -" % run] * 4 + ["R %s 1" % run]
+        if rng.random() < 0.5:
+            for i in range(2, nt + 1):
+                lines.append("R t%d 1" % i)
+        lines += ["SLEEP 40", "TRK", "LS", rng.choice(["RESTART", "RESTART", "REOPEN"])]
+        topics = ["t%d" % i for i in range(1, nt + 2)]
+        for t in topics:
+            lines += ["BR %s 409600 1 -" % t] * 2 + ["R %s 1" % t, "C %s" % t]
+        lines += ["SLEEP 10", "LS", "TRK"] + probe(topics)
+        out.append(lines)
+    return out
+
+
 def build_cases(tier, rng):
     q = tier == "quick"
     cases = boundary_cases(rng, 20 if q else 400)
+    cases += peek_cases(rng, 16 if q else 300)
+    cases += rollover_cases(rng, 10 if q else 200)
     for i in range(100 if q else 4000):
         cases.append(gen_case(rng, "C12-%d" % i, restarts=(i % 3 != 0)))
     return cases
